@@ -413,6 +413,14 @@ def witness_cases(args, rng):
     for n in names:
         src = wit_examples if args.tier == 'quick' else examples
         cases.extend([n, e] for e in src)
+    # several witness-introducing nodes of one kind on a tableau that forks (a witness taken from the trunk's
+    # counter instead of the branch's is fresh on the trunk only), in every quantified logic of the registry
+    for n, L_ in sorted(logics.items()):
+        if L_.get('quantified', True):
+            for a_ in ('a:NVxFx:NVxGx:Abc', 'a:SxFx:SxGx:Abc:SxHx', 'VxFx:Abc:NSxNFx:NSxNGx'):
+                cases.append([n, a_])
+            if L_.get('modal'):
+                cases.append([n, 'a:MFm:MGm:Abc:MHm'])
     nrand = 40 if args.tier == "quick" else 250
     for n in names:
         modal = bool(logics.get(n, {}).get('modal'))
